@@ -33,6 +33,9 @@ import (
 type Collector struct {
 	mu    sync.Mutex
 	stack ers.Stack
+	// resolved is an immutable copy of the head of the stack, handed
+	// out by Resolve and Iterator; reset when an error is added.
+	resolved *ers.Stack
 }
 
 // New constructs an empty Collector. Collectors can be used without
@@ -49,6 +52,18 @@ func (ec *Collector) Add(err error) {
 	}
 	defer with(lock(&ec.mu))
 	ec.stack.Push(err)
+	ec.resolved = nil
+}
+
+// snapshot returns a copy of the stack's head (the caller must hold
+// the lock). Push only modifies the head of the live stack, never the
+// nodes behind it, so the copy is safe to use without the lock.
+func (ec *Collector) snapshot() *ers.Stack {
+	if ec.resolved == nil {
+		cp := ec.stack
+		ec.resolved = &cp
+	}
+	return ec.resolved
 }
 
 // Obesrver returns the collector's Add method as a
@@ -75,7 +90,7 @@ func (ec *Collector) Len() int { defer with(lock(&ec.mu)); return ec.stack.Len()
 // collector.
 func (ec *Collector) Iterator() *fun.Iterator[error] {
 	defer with(lock(&ec.mu))
-	return fun.CheckProducer(ec.stack.CheckProducer()).Iterator()
+	return fun.CheckProducer(ec.snapshot().CheckProducer()).Iterator()
 }
 
 // Resolve returns an error of type *erc.Stack, or nil if there have
@@ -89,7 +104,7 @@ func (ec *Collector) Resolve() error {
 		return nil
 	}
 
-	return &ec.stack
+	return ec.snapshot()
 }
 
 // HasErrors returns true if there are any underlying errors, and
